@@ -50,6 +50,16 @@ CHECKS = [
           'fs_tx_hash over symbolic cumulative counts and stored height (every bisect boundary).',
   'note': 'As C01.  Outside: tx numbers other than the listed byte-boundary values in K1, flush ids beyond 65535.',
   'design_ref': 'DESIGN.md section 4, C02'},
+ {'id': 'C03',
+  'text': 'K1: symbolic chains (as C01) are flushed, backed out by 1..3 calls of the real backup_block (undo info, '
+          'History.backup, flush_backup) and re-advanced on a symbolic new branch that may spend anything unspent on '
+          'the surviving chain; after the backup and after the re-advance (also after restart) every observable is '
+          'proved equal to the reference of the surviving chain.  K2: the real _calc_reorg_range against two chains '
+          'sharing a prefix of symbolic length: start/count exact for every fork depth 1..D (D=8 quick, 32 thorough) '
+          'at the listed heights, and for forced reorgs of any count.',
+  'note': 'As C01.  Outside: forks deeper than 3 with real blocks (K2 carries depth), the asynchronous shell '
+          '(reorg_chain prefetch/locking; see C06), heights other than those listed in K2.',
+  'design_ref': 'DESIGN.md section 4, C03'},
 ]
 _TODO = 'check not built yet in this revision (planned, see DESIGN.md section 4); no claim is made'
-NOT_APPLICABLE = [{'property_id': f'C{n:02d}', 'reason': _TODO} for n in range(1, 20) if n not in (1, 2, 12, 13)]
+NOT_APPLICABLE = [{'property_id': f'C{n:02d}', 'reason': _TODO} for n in range(1, 20) if n not in (1, 2, 3, 12, 13)]
